@@ -275,7 +275,49 @@ def option_templates():
         'ab-xml': lambda: {'xml': True, 'special': {'b': ['a', 'b']}, 'empty': ['a']},
         'xml-empty-custom': lambda: {'xml': True, 'empty': ['item', 'br']},
         'xml-special-custom': lambda: {'xml': True, 'special': {'raw': None}},
+        **option_value_templates(),
     }
+
+
+def option_value_templates():
+    """OPTION VALUES OF EVERY TYPE that can express the documented meaning.  The documentation of the options says what
+    a value MEANS, not which Python type carries it: `xml` is a flag, `empty` is a "list of elements", a `special` entry
+    is "either empty (always mark element as special) or list of `type` attribute values".  A caller writes a flag as
+    True / 1 / 0 / None, a collection as list / tuple / frozenset / dict keys, "always special" as None or as a flag
+    (True, 1) or as another empty value ('', (), False, 0).  Every option key gets every such type here; the short
+    names a / b / ab let short strings reach the entries.  The oracle is the C16 statement only (no exception,
+    well-formed ranges, match = first outward entry ...), whichever meaning the library gives to a value."""
+    return {
+        'special-flag-true': lambda: {'special': {'style': True, 'raw': True, 'script': list(OPT_JS_TYPES)}},
+        'special-flag-int': lambda: {'special': {'style': 1, 'script': 1, 'raw': 1}},
+        'special-falsy-values': lambda: {'special': {'style': False, 'script': 0, 'raw': '', 'a': ()}},
+        'special-collections': lambda: {'special': {'script': ('', 'ts', 'a'), 'style': frozenset(['']), 'raw': {'a': 1}, 'a': 'ab'}},
+        'special-empty-list': lambda: {'special': {'style': [], 'script': [''], 'a': []}},
+        'ab-flags': lambda: {'special': {'a': True, 'b': 1}, 'empty': ('b', 'ab')},
+        'ab-xml-flags': lambda: {'xml': 1, 'special': {'b': True, 'a': 0}, 'empty': frozenset(['a'])},
+        'xml-flag-int': lambda: {'xml': 1},
+        'xml-flag-zero': lambda: {'xml': 0, 'empty': ('item', 'br')},
+        'xml-flag-none': lambda: {'xml': None, 'special': None},
+        'empty-tuple': lambda: {'empty': ('item', 'b', 'x-foo')},
+        'empty-frozenset': lambda: {'empty': frozenset(['item'])},
+        'empty-dict-keys': lambda: {'empty': {'item': True, 'br': True}, 'special': {'raw': True}},
+    }
+
+
+def model_options(opts):
+    """The options as the extracted model takes them (flag, association list name -> None | list of strings, list of
+    names).  The model follows the code: `xml` is tested for truth, `empty` is tested with `in`, a `special` entry whose
+    value is not a list means "always special" (None in the model), a missing / None `special` table is the default
+    table / no table.  Used for the correspondence only, never by the oracle."""
+    o = {}
+    opts = opts or {}
+    if 'xml' in opts:
+        o['xml'] = bool(opts['xml'])
+    if 'special' in opts:
+        o['special'] = {k: (list(v) if isinstance(v, list) else None) for k, v in (opts['special'] or {}).items()}
+    if 'empty' in opts:
+        o['empty'] = list(opts['empty'])
+    return o
 
 
 def option_names(opts):
